@@ -2118,3 +2118,650 @@ class Scanner:
                          func=run.callstack[-1][1] if run.callstack else "", module=run.callstack[-1][0] if run.callstack else "")  # fmt: skip
         run.allocs.append(site)
         return AllocV(site)
+
+    # -- statements -----------------------------------------------------------------------------
+    def exec_block(self, stmts, fr, run):
+        for st in stmts:
+            self.exec_stmt(st, fr, run)
+
+    def assign(self, target, v, fr, run, node=None):
+        if isinstance(target, ast.Name):
+            if isinstance(v, MeasV) and len(v.names) == 1:
+                t = next(iter(v.names))
+                if t in run.measures and not run.measures[t].var:
+                    run.measures[t].var = target.id
+            fr.bind(target.id, v)
+        elif isinstance(target, (ast.Tuple, ast.List)):
+            items = None
+            if isinstance(v, TupleV) and not any(isinstance(x, StarV) for x in v.items):
+                items = v.items
+            elif isinstance(v, ConstV) and isinstance(v.value, (tuple, list, str)):
+                items = [ConstV(x) for x in v.value]
+            has_star = any(isinstance(t, ast.Starred) for t in target.elts)
+            if items is not None and not has_star and len(items) == len(target.elts):
+                for t, x in zip(target.elts, items):
+                    self.assign(t, x, fr, run)
+            else:
+                base = self.vtext(v)
+                for i, t in enumerate(target.elts):
+                    if isinstance(t, ast.Starred):
+                        self.assign(t.value, SymV(f"{base}[{i}:]", free=getattr(v, "free", False)), fr, run)
+                    else:
+                        x = v if isinstance(v, (MeasV, UnkV)) else SymV(f"{base}[{i}]", free=getattr(v, "free", False))
+                        self.assign(t, x, fr, run)
+        elif isinstance(target, ast.Subscript):
+            base = self.ev(target.value, fr, run)
+            if isinstance(base, DictV):
+                kv = self.ev(target.slice, fr, run)
+                k = self.key_of(kv)
+                if k is None:
+                    base.opaque = True
+                    base.why = f"key {norm(target.slice)[:50]} not understood"
+                elif run.mult or run.opt:
+                    base.set(k, MANY, node)
+                else:
+                    base.set(k, self.to_count(v), node)
+            elif isinstance(base, MapV):
+                kv = self.ev(target.slice, fr, run)
+                if isinstance(kv, ConstV) and isinstance(kv.value, str):
+                    base.items[kv.value] = v
+        # attribute targets: no effect on the analysis
+
+    def exec_stmt(self, st, fr, run):
+        if isinstance(st, ast.Expr):
+            if isinstance(st.value, ast.Constant):
+                return
+            self.ev(st.value, fr, run)
+        elif isinstance(st, ast.Assign):
+            v = self.ev(st.value, fr, run)
+            for t in st.targets:
+                self.assign(t, v, fr, run, st.value)
+        elif isinstance(st, ast.AnnAssign):
+            if st.value is not None:
+                self.assign(st.target, self.ev(st.value, fr, run), fr, run, st.value)
+        elif isinstance(st, ast.AugAssign):
+            v = self.ev(st.value, fr, run)
+            if isinstance(st.target, ast.Subscript):
+                base = self.ev(st.target.value, fr, run)
+                if isinstance(base, DictV):
+                    k = self.key_of(self.ev(st.target.slice, fr, run))
+                    if k is None:
+                        base.opaque = True
+                        base.why = f"key {norm(st.target.slice)[:50]} not understood"
+                    elif isinstance(st.op, ast.Add):
+                        c = self.to_count(v)
+                        if run.opt:
+                            c = MANY
+                        elif isinstance(c, Poly) and any(lv in a for a in c.atoms() for lv in run.loopvars):
+                            c = MANY
+                        else:
+                            c = c_mul(c, run.count())
+                        base.add(k, c, st.value)
+                    else:
+                        base.set(k, MANY, st.value)
+            elif isinstance(st.target, ast.Name):
+                cur = fr.lookup(st.target.id)
+                fake = ast.BinOp(left=ast.Name(id=st.target.id, ctx=ast.Load()), op=st.op, right=st.value)
+                if run.mult or run.opt:
+                    fr.bind(st.target.id, SymV(f"{st.target.id}@aug{st.lineno}"))
+                elif isinstance(cur, DictV):
+                    cur.opaque = True
+                    cur.why = "augmented assignment of the whole dict"
+                else:
+                    ast.copy_location(fake, st)
+                    ast.fix_missing_locations(fake)
+                    sub = Frame(fr.module, fr)
+                    a, b = cur if cur is not None else UnkV(), v
+                    pa, pb = self.to_num(a), self.to_num(b)
+                    if isinstance(a, TupleV) and isinstance(st.op, ast.Add):
+                        fr.bind(st.target.id, TupleV(a.items + [StarV(b)]) if not isinstance(b, TupleV) else TupleV(a.items + b.items))
+                    elif pa is not None and pb is not None and isinstance(st.op, (ast.Add, ast.Sub, ast.Mult)) and not isinstance(a, SymV):
+                        r = pa + pb if isinstance(st.op, ast.Add) else pa - pb if isinstance(st.op, ast.Sub) else pa * pb
+                        fr.bind(st.target.id, NumV(r))
+                    else:
+                        fr.bind(st.target.id, SymV(f"({self.vtext(a)} {type(st.op).__name__} {self.vtext(b)})"))
+        elif isinstance(st, ast.If):
+            t = self.ev(st.test, fr, run)
+            d = self.branch(t, run)
+            if d is True:
+                self.exec_block(st.body, fr, run)
+            elif d is False:
+                self.exec_block(st.orelse, fr, run)
+            else:
+                run.opt.append(self.vtext(t))
+                try:
+                    for blk in (st.body, st.orelse):
+                        try:
+                            self.exec_block(blk, fr, run)
+                        except (_Return, _LoopCtl, _Abort):
+                            if run.mode == "body":
+                                run.unres("return/break under a loop-variant condition")
+                finally:
+                    run.opt.pop()
+        elif isinstance(st, (ast.For, ast.AsyncFor)):
+            self.exec_for(st, fr, run)
+        elif isinstance(st, ast.While):
+            run.mult.append(MANY)
+            run.loopvars.append(f"while@L{len(run.loopvars)}_{st.lineno}")
+            try:
+                self.mark_loop_assigned(st, fr)
+                try:
+                    self.exec_block(st.body, fr, run)
+                except _LoopCtl:
+                    pass
+            finally:
+                run.mult.pop()
+                run.loopvars.pop()
+        elif isinstance(st, (ast.With, ast.AsyncWith)):
+            self.exec_with(st, fr, run)
+        elif isinstance(st, ast.Return):
+            v = self.ev(st.value, fr, run) if st.value is not None else None
+            if isinstance(v, MeasV):
+                for t in v.names:
+                    if t in run.measures:
+                        run.measures[t].uses.append(("return", st))
+            raise _Return(v)
+        elif isinstance(st, ast.Raise):
+            raise _Abort()
+        elif isinstance(st, (ast.FunctionDef, ast.AsyncFunctionDef)):
+            fr.bind(st.name, self.make_local(st, fr, run))
+        elif isinstance(st, ast.ImportFrom):
+            base = self.ix._abs_from(fr.module, st)  # noqa: SLF001
+            for a in st.names:
+                r = self.ix.resolve_dotted(f"{base}.{a.name}")
+                v = self.conv(r, a.name)
+                fr.bind(a.asname or a.name, v if v is not None else ExtV(f"{base}.{a.name}"))
+        elif isinstance(st, ast.Import):
+            for a in st.names:
+                r = self.ix.resolve_dotted(a.name)
+                v = self.conv(r, a.name)
+                fr.bind((a.asname or a.name).split(".")[0], v if v is not None and a.asname else ExtV(a.name.split(".")[0]))
+        elif isinstance(st, ast.Try):
+            self.exec_block(st.body, fr, run)
+            self.exec_block(st.orelse, fr, run)
+            self.exec_block(st.finalbody, fr, run)
+        elif isinstance(st, (ast.Break, ast.Continue)):
+            raise _LoopCtl()
+        elif isinstance(st, ast.Match):
+            if run.mode == "body":
+                run.unres("match statement")
+        elif isinstance(st, ast.Assert):
+            pass
+        # pass / global / nonlocal / delete / class: nothing to do
+
+    def mark_loop_assigned(self, st, fr):
+        """names re-assigned inside a loop body are not tracked across iterations"""
+        for n in walk_shallow(st):
+            if isinstance(n, ast.AugAssign) and isinstance(n.target, ast.Name):
+                cur = fr.lookup(n.target.id)
+                if not isinstance(cur, (DictV, TupleV)):
+                    fr.bind(n.target.id, SymV(f"{n.target.id}@loop{st.lineno}"))
+
+    def exec_for(self, st, fr, run):
+        it = self.ev(st.iter, fr, run)
+        # unroll iteration over the items of a known resource dict
+        if isinstance(it, CurryV) and it.kind == "items" and isinstance(it.target, DictV) and not it.target.opaque and len(it.target.items) <= 40:
+            for k, c in list(it.target.items.items()):
+                self.assign(st.target, TupleV([OpV(k), self.from_count(c)]), fr, run)
+                try:
+                    self.exec_block(st.body, fr, run)
+                except _LoopCtl:
+                    pass
+            return
+        if isinstance(it, TupleV) and not any(isinstance(x, StarV) for x in it.items) and len(it.items) <= 16 and not run.mult:
+            for x in it.items:
+                self.assign(st.target, x, fr, run)
+                try:
+                    self.exec_block(st.body, fr, run)
+                except _LoopCtl:
+                    pass
+            self.exec_block(st.orelse, fr, run)
+            return
+        trip = None
+        elem = None
+        if isinstance(it, CurryV) and it.kind == "enumerate":
+            trip = self.iter_len(it.target)
+        elif isinstance(it, CurryV) and it.kind == "zip":
+            ls = [self.iter_len(x) for x in it.extra["items"]]
+            known = [l for l in ls if l is not None]
+            strict = it.extra.get("strict")
+            if known and (len({str(l) for l in known}) == 1 or (isinstance(strict, ConstV) and strict.value is True)):
+                trip = known[0]
+        else:
+            trip = self.iter_len(it)
+        if trip is None:
+            trip = MANY
+        tok = f"{norm(st.target)[:12]}@L{len(run.loopvars)}_{st.lineno}"
+        run.mult.append(trip)
+        run.loopvars.append(tok)
+        try:
+            self.mark_loop_assigned(st, fr)
+            if isinstance(st.target, ast.Name):
+                free = getattr(it, "free", False)
+                fr.bind(st.target.id, SymV(tok, free=False) if not isinstance(it, MeasV) else it)
+            else:
+                self.assign(st.target, SymV(tok), fr, run)
+            try:
+                self.exec_block(st.body, fr, run)
+            except _LoopCtl:
+                if run.mode == "body":
+                    run.unres("break/continue in a loop")
+        finally:
+            run.mult.pop()
+            run.loopvars.pop()
+        self.exec_block(st.orelse, fr, run)
+
+    def exec_with(self, st, fr, run):
+        opened = 0
+        for item in st.items:
+            ce = item.context_expr
+            v = None
+            if isinstance(ce, ast.Call):
+                fv = self.ev(ce.func, fr, run) if not isinstance(ce.func, ast.Call) else None
+                if isinstance(fv, FuncV) and self.by_func.get(id(fv.func)) == "allocate":
+                    args, kwargs, _ = self.ev_args(ce, fr, run)
+                    v = self.do_allocate(fv.func, args, kwargs, ce, fr, run, managed=True)
+                    site = v.site
+                    run.open_allocs.append(site)
+                    opened += 1
+                    kind = site.kind or "?"
+                    tot = ZERO
+                    for s in run.open_allocs:
+                        if (s.kind or "?") == kind:
+                            tot = c_add(tot, s.num)
+                    prev = run.alloc_peak.get(kind)
+                    if prev is None:
+                        run.alloc_peak[kind] = tot
+                    elif isinstance(prev, Poly) and isinstance(tot, Poly) and prev.as_int() is not None and tot.as_int() is not None:
+                        run.alloc_peak[kind] = Poly.const(max(prev.as_int(), tot.as_int()))
+                    elif str(prev) != str(tot):
+                        run.alloc_peak[kind] = MANY
+            if v is None:
+                v = self.ev(ce, fr, run)
+                if run.mode == "body" and not isinstance(v, AllocV):
+                    run.unres(f"context manager {norm(ce)[:50]}")
+            if item.optional_vars is not None:
+                if isinstance(v, AllocV):
+                    self.assign(item.optional_vars, SymV(f"alloc{len(run.allocs)}", length=v.site.num if isinstance(v.site.num, Poly) else None), fr, run)
+                else:
+                    self.assign(item.optional_vars, SymV(norm(item.optional_vars)), fr, run)
+        try:
+            self.exec_block(st.body, fr, run)
+        finally:
+            for _ in range(opened):
+                run.open_allocs.pop()
+
+    # -- path exploration ------------------------------------------------------------------------
+    def explore(self, mode, runner):
+        """runner(run) executes one path; returns (paths, overflow)"""
+        work = [[]]
+        out = []
+        overflow = False
+        n = 0
+        while work:
+            script = work.pop()
+            n += 1
+            if n > 4 * MAX_PATHS or len(out) > MAX_PATHS:
+                overflow = True
+                break
+            run = Run(mode, script)
+            try:
+                ret = runner(run)
+            except _NeedDecision:
+                work.append(script + [False])
+                work.append(script + [True])
+                continue
+            except _Abort:
+                continue
+            except _LoopCtl:
+                ret = None
+            out.append(Path(conds=dict(run.decided), emissions=[e for e in run.emissions if not e.consumed], unresolved=list(run.unresolved),
+                            allocs=list(run.allocs), alloc_peak=dict(run.alloc_peak), ret=ret))  # fmt: skip
+            out[-1].measures = run.measures
+        return out, overflow
+
+    @staticmethod
+    def payload(p):
+        if p.declared is not None or p.emissions == [] and p.ret is not None and isinstance(p.ret, DictV):
+            d = p.declared if p.declared is not None else p.ret
+            return ("D", tuple(sorted((k, str(c)) for k, c in d.items.items())), d.opaque)
+        return ("E", tuple(sorted((k, str(lo), str(hi)) for k, (lo, hi) in p.multiset().items())), tuple(p.unresolved),
+                tuple(sorted((str(k), str(v)) for k, v in p.alloc_peak.items())))
+
+    def simplify(self, paths):
+        """merge paths that differ in one condition only and carry the same payload"""
+        changed = True
+        while changed and len(paths) > 1:
+            changed = False
+            for i in range(len(paths)):
+                for j in range(i + 1, len(paths)):
+                    a, b = paths[i], paths[j]
+                    if set(a.conds) != set(b.conds):
+                        continue
+                    diff = [k for k in a.conds if a.conds[k] != b.conds[k]]
+                    if len(diff) == 1 and self.payload(a) == self.payload(b):
+                        a.conds = {k: v for k, v in a.conds.items() if k != diff[0]}
+                        del paths[j]
+                        changed = True
+                        break
+                if changed:
+                    break
+        return paths
+
+    # -- rules ------------------------------------------------------------------------------------
+    def find_decorator(self, f: FuncInfo):
+        rr = self.anchor["register_resources"]
+        for d in f.node.decorator_list:
+            if isinstance(d, ast.Call) and isinstance(d.func, (ast.Name, ast.Attribute)):
+                r = self.ix.resolve_expr(f.module, d.func)
+                if r is rr:
+                    return d
+        return None
+
+    def rules(self):
+        if self._rules is not None:
+            return self._rules
+        out = []
+        for f in self.ix.functions:
+            d = self.find_decorator(f)
+            if d is not None:
+                ri = self.scan_rule(f, d)
+                out.append(ri)
+                self._by_func[id(f)] = ri
+        self._rules = out
+        return out
+
+    def rule_frame(self, f):
+        parent = self.factory_frame(f.parent) if f.parent is not None else None
+        return Frame(f.module, parent, f.qualname)
+
+    def scan_rule(self, f: FuncInfo, d: ast.Call):
+        fr0 = self.rule_frame(f)
+        res_arg = d.args[0] if d.args else next((kw.value for kw in d.keywords if kw.arg == "ops"), None)
+        kw = {k.arg: k.value for k in d.keywords if k.arg}
+        exact, exact_node = True, kw.get("exact")
+        if exact_node is not None:
+            exact = exact_node.value if isinstance(exact_node, ast.Constant) and isinstance(exact_node.value, bool) else None
+        ri = RuleInfo(func=f, module=f.module, name=f.name, deco=d, resource_arg=res_arg, resource_func=None, resource_bound={},
+                      exact=exact, exact_node=exact_node, work_wires=kw.get("work_wires"), factory=f.parent)  # fmt: skip
+
+        # ---- body
+        def run_body(run):
+            fr = Frame(f.module, fr0.parent, f.qualname)
+            a = f.node.args
+            for x in a.posonlyargs + a.args + a.kwonlyargs:
+                fr.bind(x.arg, SymV(x.arg, param=True))
+            if a.vararg:
+                fr.bind(a.vararg.arg, SymV("*" + a.vararg.arg))
+            if a.kwarg:
+                fr.bind(a.kwarg.arg, SymV("**" + a.kwarg.arg))
+            run.callstack.append((f.module.relpath, f.qualname, f))
+            try:
+                self.exec_block(f.node.body, fr, run)
+            except _Return as r:
+                return r.value
+            return None
+
+        paths, overflow = self.explore("body", run_body)
+        paths = self.simplify(paths)
+        ri.paths = paths
+        if overflow:
+            ri.unresolved.append("path bound exceeded")
+        for p in paths:
+            for u in p.unresolved:
+                if u not in ri.unresolved:
+                    ri.unresolved.append(u)
+        seen = set()
+        for p in paths:
+            for e in p.emissions:
+                if id(e.node) not in seen or True:
+                    k = (id(e.node), e.key)
+                    if k not in seen:
+                        seen.add(k)
+                        ri.emissions.append(e)
+            for s in p.allocs:
+                if not any(s.node is t.node for t in ri.allocs):
+                    ri.allocs.append(s)
+            for tok, m in getattr(p, "measures", {}).items():
+                prev = next((x for x in ri.measures if x.node is m.node), None)
+                if prev is None:
+                    ri.measures.append(m)
+                else:
+                    prev.uses.extend(u for u in m.uses if not any(u[1] is w[1] for w in prev.uses))
+        ri.resolved = not ri.unresolved and bool(paths)
+        self.measure_uses(ri)
+
+        # ---- declared
+        self.scan_declared(ri, fr0)
+        return ri
+
+    def measure_uses(self, ri):
+        """flow-insensitive def/use of measurement variables inside the functions where they are bound"""
+        for m in ri.measures:
+            if not m.var:
+                continue
+            fn = None
+            for g in self.ix.functions:
+                if g.module.relpath == m.module and g.qualname == m.func:
+                    fn = g
+                    break
+            if fn is None:
+                continue
+            parents = {}
+            for p in ast.walk(fn.node):
+                for c in ast.iter_child_nodes(p):
+                    parents[c] = p
+            for n in ast.walk(fn.node):
+                if isinstance(n, ast.Name) and n.id == m.var and isinstance(n.ctx, ast.Load):
+                    role, cur = "other", n
+                    while cur in parents:
+                        par = parents[cur]
+                        if isinstance(par, ast.Call) and par.args and cur is par.args[0] and isinstance(par.func, (ast.Name, ast.Attribute)):
+                            r = self.ix.resolve_expr(fn.module, par.func)
+                            if r is self.anchor.get("cond"):
+                                role = "cond-pred"
+                                break
+                        if isinstance(par, ast.Return):
+                            role = "return"
+                            break
+                        if isinstance(par, ast.stmt):
+                            break
+                        cur = par
+                    if not any(u[1] is n for u in m.uses):
+                        m.uses.append((role, n))
+
+    def scan_declared(self, ri, fr0):
+        f = ri.func
+        arg = ri.resource_arg
+        if arg is None:
+            ri.declared_why.append("no resource argument")
+            return
+        probe = Run("res", [])
+        target = None
+        try:
+            target = self.ev(arg, fr0, probe) if not isinstance(arg, ast.Dict) else None
+        except (_NeedDecision, _Abort, _Return, _LoopCtl):
+            target = None
+        bound_args, bound_kw = [], {}
+        t = target
+        if isinstance(t, CurryV) and t.kind == "partial":
+            bound_args, bound_kw = list(t.extra.get("args", [])), dict(t.extra.get("kwargs", {}))
+            t = t.target
+        if isinstance(arg, ast.Dict):
+            ri.resource_func = arg
+        elif isinstance(t, FuncV):
+            ri.resource_func = t.func
+        elif isinstance(t, LocalFuncV):
+            ri.resource_func = next((g for g in self.ix.functions if g.node is t.node), t.node)
+        elif isinstance(t, LambdaV):
+            ri.resource_func = t.node
+        elif isinstance(t, (DictV, MapV)):
+            ri.resource_func = arg
+        else:
+            ri.declared_why.append(f"resource argument {norm(arg)[:50]} does not resolve to a function / dict")
+            return
+        ri.resource_bound = bound_kw
+
+        def run_res(run):
+            if isinstance(arg, ast.Dict) or isinstance(t, (DictV, MapV)):
+                return self.ev(arg, Frame(f.module, fr0.parent, f.qualname), run)
+            if isinstance(t, FuncV):
+                g = t.func
+                parent = self.factory_frame(g.parent) if g.parent is not None else None
+                sub = Frame(g.module, parent, g.qualname)
+                node_args, body = g.node.args, g.node.body
+                run.callstack.append((g.module.relpath, g.qualname, g))
+            elif isinstance(t, LocalFuncV):
+                sub = Frame(t.frame.module, t.frame, t.frame.qual)
+                node_args, body = t.node.args, t.node.body
+                run.callstack.append((t.frame.module.relpath, t.node.name, t.node))
+            else:
+                sub = Frame(t.frame.module, t.frame, t.frame.qual)
+                node_args, body = t.node.args, None
+                run.callstack.append((t.frame.module.relpath, "<lambda>", t.node))
+            # parameters not bound by partial stay symbolic
+            names = [x.arg for x in node_args.posonlyargs + node_args.args + node_args.kwonlyargs]
+            pos = dict(zip(names, bound_args))
+            for n in names:
+                v = bound_kw.get(n, pos.get(n))
+                sub.bind(n, v if v is not None else SymV(n, param=True))
+            if node_args.vararg:
+                sub.bind(node_args.vararg.arg, SymV("*" + node_args.vararg.arg))
+            if node_args.kwarg:
+                sub.bind(node_args.kwarg.arg, SymV("**" + node_args.kwarg.arg))
+            if body is None:
+                return self.ev(t.node.body, sub, run)
+            try:
+                self.exec_block(body, sub, run)
+            except _Return as r:
+                return r.value
+            return None
+
+        paths, overflow = self.explore("res", run_res)
+        ok = bool(paths) and not overflow
+        for p in paths:
+            v = p.ret
+            if isinstance(v, MapV) and not v.items:
+                v = DictV()
+            if isinstance(v, DictV):
+                p.declared = v
+                if v.opaque:
+                    ok = False
+                    ri.declared_why.append(v.why or "resource dict partly opaque")
+                if any(c is MANY for c in v.items.values()):
+                    pass
+            else:
+                ok = False
+                p.declared = None
+                ri.declared_why.append(f"resource function returns {self.vtext(v) if v is not None else 'None'}"[:80])
+        if overflow:
+            ri.declared_why.append("path bound exceeded in the resource function")
+        paths = self.simplify(paths)
+        ri.declared_paths = paths
+        ri.declared = [dict(p.declared.items) if p.declared is not None else None for p in paths]
+        ri.declared_resolved = ok
+
+    # -- registrations ------------------------------------------------------------------------------
+    def rule_ref(self, module, node, depth=0):
+        ref = RuleRef(node=node, text=norm(node)[:80])
+        if depth > 6:
+            return ref
+        if isinstance(node, (ast.Name, ast.Attribute)):
+            r = self.ix.resolve_expr(module, node)
+            if isinstance(r, FuncInfo):
+                self.rules()
+                ref.rule = self._by_func.get(id(r))
+                return ref
+            if isinstance(r, tuple) and r[0] == "value":
+                inner = self.rule_ref(r[1], r[2], depth + 1)
+                inner.text = ref.text
+                inner.node = node
+                return inner
+            return ref
+        if isinstance(node, ast.Call) and isinstance(node.func, (ast.Name, ast.Attribute)):
+            r = self.ix.resolve_expr(module, node.func)
+            if isinstance(r, FuncInfo):
+                ref.factory = r
+                ref.factory_args = list(node.args) + [k.value for k in node.keywords]
+                for a in node.args:
+                    if isinstance(a, (ast.Name, ast.Attribute, ast.Call)):
+                        sub = self.rule_ref(module, a, depth + 1)
+                        if sub.rule is not None or sub.factory is not None:
+                            ref.inner.append(sub)
+        return ref
+
+    def registrations(self):
+        if self._regs is not None:
+            return self._regs
+        add = self.anchor["add_decomps"]
+        out = []
+        for m in self.ix.modules.values():
+            if "add_decomps" not in m.source:
+                continue
+            for n in ast.walk(m.tree):
+                if not (isinstance(n, ast.Call) and isinstance(n.func, (ast.Name, ast.Attribute)) and n.args):
+                    continue
+                if self.ix.resolve_expr(m, n.func) is not add:
+                    continue
+                t = n.args[0]
+                reg = Registration(module=m, node=n, target=None, target_text=norm(t), kind=None, base=None)
+                if isinstance(t, ast.Constant) and isinstance(t.value, str):
+                    reg.target = t.value
+                    mm = re.fullmatch(r"(Adjoint|Pow|C|Controlled)\((.+)\)", t.value)
+                    name = t.value
+                    if mm:
+                        reg.kind = "C" if mm.group(1) == "Controlled" else mm.group(1)
+                        name = mm.group(2)
+                    reg.base = self.class_by_name(name)
+                elif isinstance(t, (ast.Name, ast.Attribute)):
+                    r = self.ix.resolve_expr(m, t)
+                    if isinstance(r, ClassInfo):
+                        reg.target = r
+                        reg.base = r
+                for a in n.args[1:]:
+                    if isinstance(a, ast.Starred):
+                        reg.rules.append(RuleRef(node=a, text=norm(a)[:80]))
+                    else:
+                        reg.rules.append(self.rule_ref(m, a))
+                out.append(reg)
+        self._regs = out
+        return out
+
+    def class_by_name(self, name):
+        r = self.ix.resolve_dotted(f"pennylane.{name}")
+        if isinstance(r, ClassInfo):
+            return r
+        r = self.ix.resolve_dotted(f"pennylane.ops.{name}")
+        if isinstance(r, ClassInfo):
+            return r
+        cands = [c for c in self.ix.classes_named(name) if self.is_operator(c)]
+        return cands[0] if len(cands) == 1 else None
+
+
+# =============================================================================================
+# public API
+
+_SCANNERS = {}
+
+
+def get_scanner(ix) -> Scanner:
+    s = _SCANNERS.get(id(ix))
+    if s is None or s.ix is not ix:
+        _SCANNERS.clear()
+        s = Scanner(ix)
+        _SCANNERS[id(ix)] = s
+    return s
+
+
+def scan_rules(ix) -> list[RuleInfo]:
+    """one RuleInfo per function decorated ``@register_resources(...)``"""
+    return get_scanner(ix).rules()
+
+
+def registrations(ix) -> list[Registration]:
+    """every ``add_decomps(target, rule...)`` call site"""
+    return get_scanner(ix).registrations()
+
+
+def coarse_key(ix, key):
+    return get_scanner(ix).coarse(key)
